@@ -31,6 +31,8 @@ var (
 	out   *bufio.Writer
 	sess  *engine.Session
 	curOp int
+
+	fetchMisses int64
 )
 
 func main() {
@@ -133,6 +135,18 @@ func init() {
 	ops["cfg"] = func(op *proto.Op, res *proto.Res) error {
 		storage.VerifNoAutoFlush = op.N != 0
 		storage.VerifCacheCap = op.M
+		if op.S == "count-misses" {
+			storage.VerifFetchMiss = func(uint64) { fetchMisses++ }
+		}
+		return nil
+	}
+	ops["stats"] = func(op *proto.Op, res *proto.Res) error {
+		res.N = fetchMisses
+		if sess.RelationService != nil {
+			keys, dirty := storage.VerifCacheKeys(sess.RelationService)
+			res.M = int64(len(keys))
+			res.Count = dirty
+		}
 		return nil
 	}
 	ops["init"] = func(op *proto.Op, res *proto.Res) error {
@@ -158,13 +172,15 @@ func init() {
 		return err
 	}
 	ops["session"] = func(op *proto.Op, res *proto.Res) error { sess = &engine.Session{}; return nil }
-	ops["sql"] = func(op *proto.Op, res *proto.Res) error { return sess.ExecQuery(op.SQL) }
+	ops["sql"] = func(op *proto.Op, res *proto.Res) error { return sess.ExecQuery(string(op.SQL)) }
 	ops["query"] = opQuery
 	ops["stmt"] = opStmt
 	ops["flush"] = func(op *proto.Op, res *proto.Res) error {
 		if sess.RelationService == nil {
 			return fmt.Errorf("DRIVER: no relation service")
 		}
+		keys, dirty := storage.VerifCacheKeys(sess.RelationService)
+		res.N, res.M = int64(dirty), int64(len(keys))
 		return storage.VerifFlush(sess.RelationService)
 	}
 	ops["close"] = func(op *proto.Op, res *proto.Res) error { return sess.Close() }
@@ -263,7 +279,7 @@ func convRows(rows []*storage.Row) []proto.Row {
 }
 
 func opQuery(op *proto.Op, res *proto.Res) error {
-	st, err := engine.VerifParseSQL(op.SQL)
+	st, err := engine.VerifParseSQL(string(op.SQL))
 	if err != nil {
 		return fmt.Errorf("PARSE: %w", err)
 	}
